@@ -663,3 +663,16 @@ func (nh *NodeHost) VerifSnapshotDir(shardID uint64, replicaID uint64) string {
 // time) of the periodic Sync task of on-disk state machines, for nodes created
 // afterwards.
 func VerifSetSyncTaskInterval(ms uint64) { syncTaskInterval = ms }
+
+// VerifKeySeed, when set by the simulation harness, provides the seed of the
+// generators of request keys (by default derived from the pid and the wall
+// clock), so that the keys - and with them the encoded size of every proposed
+// entry - are a function of the simulated run.
+var VerifKeySeed func(shardID uint64, replicaID uint64, shard uint64) int64
+
+func verifKeySeed(shardID uint64, replicaID uint64, shard uint64) (int64, bool) {
+	if f := VerifKeySeed; f != nil {
+		return f(shardID, replicaID, shard), true
+	}
+	return 0, false
+}
